@@ -15,6 +15,7 @@
 #include "definition.h"
 #include "policy.h"
 
+#include <algorithm>
 #include <type_traits>
 
 /// compositional numeric library
@@ -65,7 +66,10 @@ namespace cnl {
 
         [[nodiscard]] constexpr auto operator()(Lhs const& lhs, Rhs const& rhs) const
         {
-            return Operator()(static_cast<result_rep>(lhs), static_cast<result_rep>(rhs));
+            // operate in a type wide enough for both operands as well as the result
+            using operand_rep = set_digits_t<
+                    result_rep, std::max(digits_v<result_rep>, std::max(LhsDigits, RhsDigits))>;
+            return Operator()(static_cast<operand_rep>(lhs), static_cast<operand_rep>(rhs));
         }
     };
 
